@@ -103,7 +103,8 @@ static void work_path(long lo, long hi, struct res *r, void *arg) {
         }
         /* crypt twice with the same password */
         for (int i = 0; i < 32; i++) E.mask[i] = (uint8_t)prng(&ps);
-        polyseed_crypt(d0, "p\xC3\xA4ss"); polyseed_crypt(d0, "pa\xCC\x88ss"); r->calls += 2;
+        /* (the first of the two under a refusing allocator: the password operation has no way to fail, so it must still be applied) */
+        E.fail_at = E.alloc_seq; polyseed_crypt(d0, "p\xC3\xA4ss"); E.fail_at = -1; polyseed_crypt(d0, "pa\xCC\x88ss"); r->calls += 2;
         r->cases++; bad |= keygen_case(d0, &s, coin, 32, 0, r, rep, "path-crypt2");
         /* the password operation applied twice with other seeds' password operations in between (one of their passwords a prefix of
          * this one, and the empty password): what the KDF returns for a password depends on that password only */
@@ -155,6 +156,9 @@ int main(int argc, char **argv) {
     E_kdf_hook = hook;
     struct sigaction sa; memset(&sa, 0, sizeof sa); sa.sa_sigaction = on_segv; sa.sa_flags = SA_SIGINFO | SA_NODEFER; sigaction(SIGSEGV, &sa, NULL);
     struct res *r = calloc(1, sizeof *r);
+    if (a + 1 < argc && !strcmp(argv[a], "big")) { extern size_t E_kdf_write_limit; E_kdf_write_limit = 64; static uint8_t kb[64]; static const size_t BIG[] = { (size_t)1 << 31, ((size_t)1 << 32) - 1, (size_t)1 << 32, ((size_t)1 << 32) + 32, (size_t)1 << 40, ((size_t)-1) / 2 + 1, (size_t)-1 };
+        rseed s0; memset(&s0, 0, sizeof s0); s0.birthday = 500; s0.features = 18; polyseed_data *d = seed_from_ref(&s0); size_t want = BIG[atoi(argv[a + 1]) % 7]; env_clear_log(); polyseed_keygen(d, 77, want, kb);
+        printf("key_size %zu -> KDF key length %zu\n", want, E.kdf.keylen); if (E.kdf.keylen != want || E.kdf.key != kb) { printf("REPRODUCED c04:key-length\n"); return 1; } return 0; }
     if (a + 1 < argc && !strcmp(argv[a], "path")) { long x = atol(argv[a + 1]); work_path(x, x + 1, r, NULL); for (int i = 0; i < r->nviol; i++) printf("REPRODUCED %s: %s\n", r->v[i].key, r->v[i].msg); return r->nviol ? 1 : 0; }
     if (a < argc && !strcmp(argv[a], "case")) {   /* case <secret> <birthday> <features> <coin> <keysize> */
         rseed s; parse_rseed(argv[a + 1], atoi(argv[a + 2]), atoi(argv[a + 3]), &s);
@@ -176,7 +180,17 @@ int main(int argc, char **argv) {
     /* quick: 2 secrets x 4 feature values {0,7,16,23}... realised as: all 16 loadable feature values for secret 1, thorough: 4 secrets */
     int nsec = G_thorough ? 4 : 1;
     par_run((long)nsec * 16 * 1024, work, NULL, r);
-    out_part("all coins x all birthdays x all 16 loadable feature values x secrets", r, CLS, "reserved feature bit 8 cannot be held by a seed");
+    /* key lengths that do not fit 32 bits (and the largest size_t): the length reaches the KDF unaltered; the stub writes only the first 64 bytes */
+    { extern size_t E_kdf_write_limit; E_kdf_write_limit = 64; static uint8_t kb[64];
+      static const size_t BIG[] = { (size_t)1 << 31, ((size_t)1 << 32) - 1, (size_t)1 << 32, ((size_t)1 << 32) + 32, (size_t)1 << 40, ((size_t)-1) / 2 + 1, (size_t)-1 };
+      rseed s0 = SEC[0]; s0.birthday = 500; s0.features = 18; polyseed_data *d = seed_from_ref(&s0);
+      for (unsigned i = 0; d && i < sizeof BIG / sizeof *BIG; i++) { env_clear_log(); polyseed_keygen(d, 77, BIG[i], kb); r->cases++; r->calls++;
+          char rep[80]; snprintf(rep, sizeof rep, "big %u", i);
+          uint8_t salt[32]; ref_keygen_salt(&s0, 77, salt);
+          if (E.n_kdf != 1 || E.kdf.keylen != BIG[i] || E.kdf.key != kb || E.kdf.saltlen != 32 || memcmp(E.kdf.salt, salt, 32) || E.kdf.pwlen != 32 || E.kdf.iters != 10000) res_viol(r, "c04:key-length", rep, "keygen with key_size %zu: the KDF was called %lu times with key length %zu (pointer %s), password length %zu, salt length %zu, %llu iterations", BIG[i], E.n_kdf, E.kdf.keylen, E.kdf.key == kb ? "passed through" : "changed", E.kdf.pwlen, E.kdf.saltlen, (unsigned long long)E.kdf.iters);
+          else { r->validated++; r->cls[0]++; } }
+      if (d) polyseed_free(d); E_kdf_write_limit = 0; }
+    out_part("all coins x all birthdays x all 16 loadable feature values x secrets", r, CLS, "reserved feature bit 8 cannot be held by a seed; key lengths up to the largest size_t");
     memset(r, 0, sizeof *r); par_run(G_thorough ? 20000 : 3000, work_path, NULL, r);
     out_part("path independence (load, create, decode x10 languages, crypt twice)", r, CLS, "seeds from a PRNG (additional; E1 runs keygen in every reachable state)");
     out_kv_int("secrets", nsec);
